@@ -293,7 +293,7 @@ func genWrites(pkgs []*packages.Package, by map[string]*packages.Package, out st
 	genWritesFor(prog, by, []string{"interpreter"}, out+"/Writes.lean", "GoBT.Gen.Writes", "/repo/bscript/interpreter", false)
 	// the library proper: also writes through pointers to byte slices (*bscript.Script receivers and arguments)
 	returnsFresh = map[*ssa.Function]map[int]bool{}
-	genWritesFor(prog, by, []string{"bt", "bscript"}, out+"/WritesLib.lean", "GoBT.Gen.WritesLib", "/repo (package bt) and /repo/bscript", true)
+	genWritesFor(prog, by, []string{"bt", "bscript", "ord"}, out+"/WritesLib.lean", "GoBT.Gen.WritesLib", "/repo (package bt), /repo/bscript and /repo/ord", true)
 }
 
 // ptrSlices: also follow pointers to byte slices (loads through them, writes through them in callees)
